@@ -283,7 +283,8 @@ def finish(result, tier, level, rule, assumptions, t0, coverage_extra=None,
         'shards_done': result.shards_done,
         'distinct_outcomes': len(result.outcomes),
         'counters': {k: int(v) for k, v in sorted(c.items())},
-        'clause_warnings': [k for k, v in sorted(c.items()) if k.startswith('hit_') and v == 0],
+        'clause_warnings': sorted({k for k, v in c.items() if k.startswith('hit_') and v == 0}
+                                  | {k for k in getattr(result, 'expected_hits', ()) if not c.get(k)}),
         'notes': result.notes,
         'known_findings_seen': sorted(listed),
     }
